@@ -46,7 +46,9 @@ async def _call_on_klongloop(klongloop, fn, parameters):
 
     def run():
         try:
-            result = fn(parameters)
+            # the text of the result is taken here, on the klong loop: taken on the io loop after this handler has
+            # returned, it can show what a later evaluation did to a dictionary the handler answered
+            result = str(fn(parameters))
         except SystemExit as e:
             # a handler that leaves its evaluation through an exit (".x(0)") is a failed handler: left to propagate
             # it ends the klong loop's thread, this request and every later one would never be answered
